@@ -850,6 +850,73 @@ def generate_big(rng: random.Random, n=None) -> dict:
             'ili_files': ili_files}
 
 
+def generate_hub(rng: random.Random, k=None) -> dict:
+    """Sizes BETWEEN the small random universes and the thousand-row ones: a provider whose
+    hub synset has *k* children (k around 64/100/128/256), a dependent that has the hub concept
+    and only a few of the children, and one or two extensions of the dependent that LATER
+    supply synsets for some of the concepts the dependent lacks (a placeholder of an earlier
+    query has to become a real synset for a long-lived default-mode Wordnet)."""
+    k = k or rng.choice([40, 63, 64, 65, 70, 100, 127, 128, 129, 200, 255, 256, 257, 300])
+
+    def header(lid, lang, requires, extends=None):
+        return {'id': lid, 'version': '1', 'label': 'Hub ' + lid, 'language': lang,
+                'email': 'm@example.com', 'license': 'MIT', 'meta': None, 'extends': extends,
+                'requires': requires, 'entries': [], 'synsets': [], 'frames': []}
+
+    def synset(sid, j, rels=()):
+        return {'id': sid, 'ili': 'i%d' % (500 + j), 'partOfSpeech': 'n', 'meta': None,
+                'definitions': [], 'relations': list(rels), 'examples': []}
+
+    def entry(lid, j, sid):
+        return {'id': '%s-e%d' % (lid, j),
+                'lemma': {'writtenForm': 'h%d' % j, 'partOfSpeech': 'n', 'tags': [],
+                          'pronunciations': []},
+                'forms': [], 'frames': [], 'meta': None,
+                'senses': [{'id': '%s-k%d' % (lid, j), 'synset': sid, 'meta': None,
+                            'relations': [], 'examples': [], 'counts': []}]}
+    prov = header('hube', 'en', [])
+    reltype = rng.choice(['hyponym', 'also', 'similar'])
+    prov['synsets'].append(synset('hube-s0', 0, [{'target': 'hube-s%d' % j, 'relType': reltype,
+                                                   'meta': None} for j in range(1, k + 1)]))
+    for j in range(1, k + 1):
+        prov['synsets'].append(synset('hube-s%d' % j, j, [{'target': 'hube-s0',
+                                                            'relType': 'hypernym', 'meta': None}]))
+    for j in range(0, k + 1, 9):
+        prov['entries'].append(entry('hube', j, 'hube-s%d' % j))
+    dep = header('hubl', 'es', [{'id': 'hube', 'version': '1'}] if rng.random() < 0.7 else [])
+    have = sorted(rng.sample(range(1, k + 1), rng.choice([0, 1, 3])))
+    own = [{'target': 'hubl-s%d' % j, 'relType': 'also', 'meta': None} for j in have[:1]]
+    dep['synsets'].append(synset('hubl-s0', 0, own))
+    dep['entries'].append(entry('hubl', 0, 'hubl-s0'))
+    for j in have:
+        dep['synsets'].append(synset('hubl-s%d' % j, j))
+        dep['entries'].append(entry('hubl', j, 'hubl-s%d' % j))
+    lexicons = {'hube:1': prov, 'hubl:1': dep}
+    order = ['hube:1', 'hubl:1']
+    resources = [{'name': 'r0', 'lmf_version': '1.1', 'lexicons': ['hube:1']},
+                 {'name': 'r1', 'lmf_version': '1.3', 'lexicons': ['hubl:1']}]
+    lack = [j for j in range(1, k + 1) if j not in have]
+    rng.shuffle(lack)
+    for i in range(rng.choice([1, 2])):
+        xid = 'hubx%d' % i
+        x = header(xid, 'es', [], {'id': 'hubl', 'version': '1'})
+        mine = [lack.pop() for _ in range(min(len(lack), rng.choice([1, 2, 5])))]
+        for j in mine:
+            x['synsets'].append(synset('%s-s%d' % (xid, j), j))
+            x['entries'].append(entry(xid, j, '%s-s%d' % (xid, j)))
+        if rng.random() < 0.5 and have:
+            # a second synset for a concept the base already has (several synsets per ILI)
+            j = have[0]
+            x['synsets'].append(synset('%s-s%d' % (xid, j), j))
+        sp = '%s:1' % xid
+        lexicons[sp] = x
+        order.append(sp)
+        resources.append({'name': 'r%d' % len(resources), 'lmf_version': '1.1',
+                          'lexicons': [sp]})
+    return {'profile': {'hub': k}, 'lexicons': lexicons, 'order': order,
+            'resources': resources, 'ili_files': []}
+
+
 def generate_deep(rng: random.Random, n=None) -> dict:
     """A universe whose relation graph is DEEP rather than wide: one lexicon whose *n* synsets
     form a single chain of one relation type (and whose senses form a chain of another), longer
